@@ -91,13 +91,21 @@ fn sym_dirs(syms: &str) -> Option<Vec<Dir>> {
     Some(v)
 }
 
-/// request tokens -> source text (`<~`/`>~` glue to the next token)
-fn render(tokens: &str) -> String {
+/// request tokens -> source text (`<~`/`>~` glue to the next token).
+/// style 0: one space between tokens; 1: runs of spaces and tabs; 2: comments between tokens;
+/// 3: as 0 (the line-level differences of style 3 are applied by `build_files`)
+fn render_styled(tokens: &str, style: u8) -> String {
     let mut s = String::new();
     let mut glue = true;
+    let mut n = 0;
     for t in tokens.split(' ').filter(|t| !t.is_empty()) {
         if !glue {
-            s.push(' ');
+            n += 1;
+            match style {
+                1 => s.push_str(if n % 2 == 0 { "  " } else { " \t " }),
+                2 => s.push_str(if n % 2 == 0 { " /* c */ " } else { "/**/ " }),
+                _ => s.push(' '),
+            }
         }
         if t == "<~" || t == ">~" {
             s.push_str(&t[..1]);
@@ -110,33 +118,62 @@ fn render(tokens: &str) -> String {
     s
 }
 
-/// the main file and the include files of a directive list
-fn build_files(dirs: &[Dir]) -> Vec<(String, String)> {
+fn render(tokens: &str) -> String {
+    render_styled(tokens, 0)
+}
+
+/// the main file and the include files of a directive list.
+/// style 1: extra blanks after `#` and the command name; style 2: comments inside and after directives;
+/// style 3: indented `#`, `# command`, CRLF line ends, blank lines between lines
+fn build_files(dirs: &[Dir], style: u8) -> Vec<(String, String)> {
     let mut main = String::new();
     let mut files = Vec::new();
+    let hash = match style {
+        1 => "#  ",
+        2 => "#/**/",
+        3 => "  \t# ",
+        _ => "#",
+    };
+    let gap = match style {
+        1 => " \t ",
+        2 => " /* c */ ",
+        _ => " ",
+    };
+    let eol = match style {
+        2 => " // trailing comment\n",
+        3 => "\r\n\r\n",
+        _ => "\n",
+    };
+    let rd = |t: &str| render_styled(t, style);
     for (i, d) in dirs.iter().enumerate() {
         match d {
-            Dir::If(c) => main.push_str(&format!("#if {}\n", render(c))),
-            Dir::Ifdef(false, n) => main.push_str(&format!("#ifdef {}\n", n)),
-            Dir::Ifdef(true, n) => main.push_str(&format!("#ifndef {}\n", n)),
-            Dir::Elif(c) => main.push_str(&format!("#elif {}\n", render(c))),
-            Dir::Else => main.push_str("#else\n"),
-            Dir::Endif => main.push_str("#endif\n"),
-            Dir::Text(t) => main.push_str(&format!("{}\n", render(t))),
-            Dir::Define(n, b) => main.push_str(&format!("#define {} {}\n", n, render(b))),
-            Dir::Undef(n) => main.push_str(&format!("#undef {}\n", n)),
-            Dir::Pragma(k) => main.push_str(match k.as_str() {
-                "once" => "#pragma once\n",
-                "warning" => "#pragma warning(disable : 4000)\n",
-                _ => "#pragma bogus_pragma\n",
-            }),
+            Dir::If(c) => main.push_str(&format!("{}if{}{}{}", hash, gap, rd(c), eol)),
+            Dir::Ifdef(false, n) => main.push_str(&format!("{}ifdef{}{}{}", hash, gap, n, eol)),
+            Dir::Ifdef(true, n) => main.push_str(&format!("{}ifndef{}{}{}", hash, gap, n, eol)),
+            Dir::Elif(c) => main.push_str(&format!("{}elif{}{}{}", hash, gap, rd(c), eol)),
+            Dir::Else => main.push_str(&format!("{}else{}", hash, eol)),
+            Dir::Endif => main.push_str(&format!("{}endif{}", hash, eol)),
+            Dir::Text(t) => main.push_str(&format!("{}{}", rd(t), eol)),
+            Dir::Define(n, b) => main.push_str(&format!("{}define{}{}{}{}{}", hash, gap, n, gap, rd(b), eol)),
+            Dir::Undef(n) => main.push_str(&format!("{}undef{}{}{}", hash, gap, n, eol)),
+            Dir::Pragma(k) => main.push_str(&format!(
+                "{}pragma{}{}{}",
+                hash,
+                gap,
+                match k.as_str() {
+                    "once" => "once",
+                    "warning" => "warning(disable : 4000)",
+                    _ => "bogus_pragma",
+                },
+                eol
+            )),
             Dir::Include(Some(t)) => {
                 let name = format!("inc{}.h", i);
-                files.push((name.clone(), format!("{}\n", render(t))));
+                files.push((name.clone(), format!("{}\n", rd(t))));
                 main.push_str(&format!("#include \"{}\"\n", name));
             }
             Dir::Include(None) => main.push_str("#include \"missing.h\"\n"),
-            Dir::Unknown => main.push_str("#frobnicate 1\n"),
+            Dir::Unknown => main.push_str(&format!("{}frobnicate{}1{}", hash, gap, eol)),
         }
     }
     files.insert(0, ("main.rssl".to_string(), main));
@@ -599,6 +636,7 @@ struct Stats {
     cond_ops: Hist,
     cond_depth: Hist,
     ops: Hist,
+    styles: Hist,
 }
 
 fn max_depth(dirs: &[Dir]) -> usize {
@@ -619,30 +657,32 @@ fn max_depth(dirs: &[Dir]) -> usize {
 fn do_request(line: &str, out: &mut Out, st: &mut Stats) {
     let f: Vec<&str> = line.split('\t').collect();
     match f.as_slice() {
-        ["C11.seq", syms] => {
+        ["C11.seq", syms] | ["C11.seq", syms, _] => {
             let Some(dirs) = sym_dirs(syms) else {
                 out.case(line, "bad-request", "SKIP:bad request");
                 return;
             };
-            run_dirs(line, &dirs, out, st);
+            run_dirs(line, &dirs, style_of(f.get(2)), out, st);
         }
-        ["C11.run", dl] => {
+        ["C11.run", dl] | ["C11.run", dl, _] => {
             let dirs: Option<Vec<Dir>> =
                 if dl.is_empty() { Some(Vec::new()) } else { dl.split(';').map(parse_dir).collect() };
             let Some(dirs) = dirs else {
                 out.case(line, "bad-request", "SKIP:bad request");
                 return;
             };
-            run_dirs(line, &dirs, out, st);
+            run_dirs(line, &dirs, style_of(f.get(2)), out, st);
         }
-        ["C11.cond", defs, cond] => {
+        ["C11.cond", defs, cond] | ["C11.cond", defs, cond, _] => {
             let Some(defs) = parse_defs(defs) else {
                 out.case(line, "bad-request", "SKIP:bad request");
                 return;
             };
             st.ops.add("cond");
             let dirs = cond_dirs(&defs, cond);
-            let obs = run_real(&build_files(&dirs));
+            let style = style_of(f.get(3));
+            st.styles.add(&format!("{}", style));
+            let obs = run_real(&build_files(&dirs, style));
             let observation = match &obs {
                 Observed::Ok(l) if l.len() == 1 && l[0] == "T" => "1".to_string(),
                 Observed::Ok(l) if l.len() == 1 && l[0] == "F" => "0".to_string(),
@@ -679,9 +719,14 @@ fn do_request(line: &str, out: &mut Out, st: &mut Stats) {
     }
 }
 
-fn run_dirs(line: &str, dirs: &[Dir], out: &mut Out, st: &mut Stats) {
+fn style_of(f: Option<&&str>) -> u8 {
+    f.and_then(|s| s.parse::<u8>().ok()).map(|v| v % 4).unwrap_or(0)
+}
+
+fn run_dirs(line: &str, dirs: &[Dir], style: u8, out: &mut Out, st: &mut Stats) {
     st.ops.add(if line.starts_with("C11.seq") { "seq" } else { "run" });
-    let obs = run_real(&build_files(dirs));
+    st.styles.add(&format!("{}", style));
+    let obs = run_real(&build_files(dirs, style));
     let exp = reference(dirs);
     let oracle = judge(&exp, &obs);
     match &obs {
@@ -866,7 +911,8 @@ fn random_conds(r: &mut Rng, n: u64, out: &mut Out, st: &mut Stats) {
         let depth = 1 + r.below(5) as u32;
         let cond = gen_cond_tokens(r, depth, st);
         let d: Vec<String> = defs.iter().map(|(n, b)| format!("{}={}", n, b)).collect();
-        do_request(&format!("C11.cond\t{}\t{}", d.join(","), cond), out, st);
+        let style = if r.chance(1, 2) { 0 } else { 1 + r.below(3) };
+        do_request(&format!("C11.cond\t{}\t{}\t{}", d.join(","), cond, style), out, st);
     }
 }
 
@@ -922,7 +968,8 @@ fn random_runs(r: &mut Rng, n: u64, out: &mut Out, st: &mut Stats) {
         dirs.push(Dir::Text("probe A B C U".into()));
         st.kinds.add(if well_nested { "run-nested" } else { "run-wild" });
         let l: Vec<String> = dirs.iter().map(show_dir).collect();
-        do_request(&format!("C11.run\t{}", l.join(";")), out, st);
+        let style = if r.chance(1, 2) { 0 } else { 1 + r.below(3) };
+        do_request(&format!("C11.run\t{}\t{}", l.join(";"), style), out, st);
     }
 }
 
@@ -974,7 +1021,7 @@ pub fn run(args: &Args, out: &mut Out) {
     random_conds(&mut r.fork(), share(n_cond), out, &mut st);
     random_runs(&mut r.fork(), share(n_run), out, &mut st);
     out.stat(&format!(
-        "{{\"exhaustive_max_len\":{},\"ops\":{},\"outcome\":{},\"oracle\":{},\"max_nesting\":{},\"lines_kept\":{},\"kinds\":{},\"cond_value\":{},\"cond_operators\":{},\"cond_depth\":{}}}",
+        "{{\"exhaustive_max_len\":{},\"ops\":{},\"outcome\":{},\"oracle\":{},\"max_nesting\":{},\"lines_kept\":{},\"kinds\":{},\"cond_value\":{},\"cond_operators\":{},\"cond_depth\":{},\"whitespace_style\":{}}}",
         max_len,
         st.ops.json(),
         st.outcome.json(),
@@ -984,6 +1031,7 @@ pub fn run(args: &Args, out: &mut Out) {
         st.kinds.json(),
         st.cond_value.json(),
         st.cond_ops.json(),
-        st.cond_depth.json()
+        st.cond_depth.json(),
+        st.styles.json()
     ));
 }
